@@ -648,6 +648,13 @@ impl<Writer: Write> Mp4Writer<Writer> {
         if self.finalized {
             return Err(io::Error::other("mp4 writer already finalised"));
         }
+        // The visual sample entry stores width/height as 16-bit fields.
+        if video.width > u16::MAX as u32 || video.height > u16::MAX as u32 {
+            return Err(io::Error::new(
+                io::ErrorKind::InvalidInput,
+                "video width and height must fit in 16 bits",
+            ));
+        }
         self.finalized = true;
 
         let video_config = self
